@@ -23,6 +23,7 @@ type c18Type struct {
 }
 
 var errIface = reflect.TypeOf((*error)(nil)).Elem()
+var anyIface = reflect.TypeOf((*any)(nil)).Elem()
 
 func c18Pool() []c18Type {
 	obj := func() schema.Type {
@@ -150,7 +151,7 @@ func runC18(c *wk.Ctx) {
 		}
 	}
 	ncases := int64(len(plists)) * int64(len(results))
-	c.Cases(ncases+int64(len(pool)*4), func(idx int64, r *wk.Rand) {
+	c.Cases(ncases+int64(len(pool)*6), func(idx int64, r *wk.Rand) {
 		if idx >= ncases {
 			c18Variadic(c, pool, int(idx-ncases))
 			return
@@ -415,9 +416,14 @@ func c18Variadic(c *wk.Ctx, pool []c18Type, k int) {
 		in, out, decl = []reflect.Type{elem.typ, sl}, []reflect.Type{reflect.TypeOf(int64(0)), errIface}, []schema.Type{elem.mk(), listSchema()}
 	case 2:
 		in, out, decl = []reflect.Type{sl}, nil, []schema.Type{listSchema()}
-	default:
+	case 3:
 		in, out, decl = []reflect.Type{sl}, []reflect.Type{errIface}, []schema.Type{listSchema()}
+	case 4: // dynamic constructor: results are exactly (any, error)
+		in, out, decl = []reflect.Type{sl}, []reflect.Type{anyIface, errIface}, []schema.Type{listSchema()}
+	default:
+		in, out, decl = []reflect.Type{elem.typ, sl}, []reflect.Type{anyIface, errIface}, []schema.Type{elem.mk(), listSchema()}
 	}
+	dynamic := shape >= 4
 	ft := reflect.FuncOf(in, out, true)
 	var seenLen int
 	handler := reflect.MakeFunc(ft, func(args []reflect.Value) []reflect.Value {
@@ -427,7 +433,9 @@ func c18Variadic(c *wk.Ctx, pool []c18Type, k int) {
 			if t == errIface {
 				res[i] = reflect.Zero(t)
 			} else {
-				res[i] = reflect.ValueOf(int64(seenLen))
+				v := reflect.New(t).Elem()
+				v.Set(reflect.ValueOf(int64(seenLen)))
+				res[i] = v
 			}
 		}
 		return res
@@ -440,7 +448,17 @@ func c18Variadic(c *wk.Ctx, pool []c18Type, k int) {
 	var fn schema.CallableFunction
 	var err error
 	wit := map[string]any{"handler": ft.String(), "variadic": true}
-	p, site, msg, _ := wk.Guard(func() { fn, err = schema.NewCallableFunction("f", decl, declOut, oe, nil, handler) })
+	p, site, msg, _ := wk.Guard(func() {
+		if dynamic {
+			fn, err = schema.NewDynamicCallableFunction("f", decl, nil, handler, func([]schema.Type) (schema.Type, error) { return schema.NewAnySchema(), nil })
+		} else {
+			fn, err = schema.NewCallableFunction("f", decl, declOut, oe, nil, handler)
+		}
+	})
+	if dynamic {
+		wit["constructor"] = "dynamic"
+		c.Count("variadic_handlers_dynamic")
+	}
 	c.Count("constructor_calls")
 	c.Count("variadic_handlers")
 	c.Eval(wk.Hash64("variadic", ft.String()), true)
@@ -454,7 +472,7 @@ func c18Variadic(c *wk.Ctx, pool []c18Type, k int) {
 	}
 	c.Count("accepted")
 	args := []any{}
-	if shape == 1 {
+	if shape == 1 || shape == 5 {
 		args = append(args, elem.sample(0))
 	}
 	slice := reflect.MakeSlice(sl, 0, 3)
@@ -473,7 +491,7 @@ func c18Variadic(c *wk.Ctx, pool []c18Type, k int) {
 		c.Violation("C18:call:spurious-error:variadic", fmt.Sprintf("accepted variadic handler %s: Call failed: %v", ft, err), wit)
 		return
 	}
-	if declOut != nil && res != int64(3) {
+	if (declOut != nil || dynamic) && res != int64(3) {
 		c.Violation("C18:call:wrong-result:variadic", fmt.Sprintf("accepted variadic handler %s: Call returned %#v, handler saw %d elements", ft, res, seenLen), wit)
 	}
 }
